@@ -17,7 +17,7 @@ MINE = {"FollowerRoot"}
 
 
 def describe(clause, row, rows, line):
-    key = "FollowerRoot:%s" % ("after-reorg" if row.get("reorgs") else "linear")
+    key = "FollowerRoot:%s" % ("after-reorg" if row.get("reorgs") else "after-failed-insertion" if row.get("failedInserts") else "linear")
     what = "replaying the identity diffs served by %s (history %s, head %s, %s reorganisations) gives another identity root than the canonical header at height(s) %s" % (
         row.get("server"), row.get("hid"), row.get("head"), row.get("reorgs"), row.get("bad"))
     return key, what
@@ -26,15 +26,21 @@ def describe(clause, row, rows, line):
 def main(ctx):
     quick = ctx.tier == "quick"
     r = chainlib.model_run(ctx, "SyncStore.tla", "MC_SyncStore.cfg", workers=4)
-    trace, stats, out = chainlib.run_histories(ctx, quick, extra_args=["-identity-heavy", "-reorgs"])
+    rb = vlib.tlc(ctx, "SyncStore.tla", "MC_SyncStore_bug_difffirst.cfg", workers=2, timeout=600, want_exports=False)
+    if rb.ok or rb.invariant != "FollowerRoot":
+        raise vlib.CheckError("specification self-test failed: a diff written before the fallible steps of an insertion does not violate FollowerRoot in the model")
+    trace, stats, out = chainlib.run_histories(ctx, quick, extra_args=["-identity-heavy", "-reorgs", "-faults"])
     if stats is None:
         vlib.driver_failure(ctx, out)
     ok, info = chainlib.validate(ctx, trace, "Trace_Registry.tla", "Trace_Registry.cfg", MINE, "C11", describe)
     rows = vlib.read_ndjson(trace)
     fol = [x for x in rows if x.get("ev") == "Follower"]
     reorgs = sum(x.get("reorgs", 0) for x in fol)
+    failed = [x for x in rows if x.get("ev") == "FailedInsert"]
     if not fol:
         raise vlib.CheckError("no follower replay was recorded (dead driver)")
+    if not failed or any(x.get("err") == "ok" for x in failed):
+        raise vlib.CheckError("failed insertions: %d recorded, %d of them did not fail (dead fault injection)" % (len(failed), sum(1 for x in failed if x.get("err") == "ok")))
 
     def mutate(rows_):
         for row in rows_:
@@ -46,7 +52,7 @@ def main(ctx):
         selftest_reject(ctx, "Trace_Registry.tla", "Trace_Registry.cfg", trace, mutate, n_lines=100000)
     cov = {"states": r.distinct, "transitions": r.generated,
            "traces_validated_against_impl": len(fol), "heights_replayed": sum(x.get("head", 0) for x in fol),
-           "reorganisations": reorgs,
+           "reorganisations": reorgs, "failed_insertions": len(failed),
            "samples": fol[:2],
            "rule": "followers replay every served identity diff from the genesis identity state and compare the root with each canonical header, "
                    "including after fork switches between sibling blocks with different identity diffs"}
